@@ -162,6 +162,15 @@ func c09Sub(c *core.Ctx, t *tape.Tape, cfg gCfg, faults bool, cut int, kind stri
 			return steps, false
 		}
 	}
+	if g.tcpMux != nil {
+		if un := g.tcpMux.Unreleased(); len(un) > 0 {
+			c.Failf("C09/tcp-mux-handle-not-released", "%s: TCP mux handles neither closed nor removed: %v", where, un)
+			return steps, false
+		}
+		if len(g.tcpMux.Handles) > 0 {
+			c.Probe("tcp-mux-handle")
+		}
+	}
 	g.finish()
 	if trace {
 		all := g.agentSockets(false)
